@@ -305,11 +305,16 @@ func (ex *Exec) shimIntrinsic(st *State, fn *ssa.Function, args []Value, depth i
 				}
 				return []Value{True()}
 			}
-			// a later call with the same id outside the region ends it
+			return []Value{False()}
+		}), true
+	case "zzKnownFindingEnd":
+		// ends the region of a known finding opened earlier on this path
+		return ex.runIntrinsic(st, func(s *State) []Value {
+			id, _ := args[0].(StrV).Concrete()
 			if s.KF == id {
 				s.KF = ""
 			}
-			return []Value{False()}
+			return nil
 		}), true
 	case "zzAnd", "zzOr", "zzNot", "zzImplies", "zzIff", "zzIteInt", "zzIteU64", "zzIteI64", "zzIteBig":
 		return ex.runIntrinsic(st, func(s *State) []Value {
